@@ -373,3 +373,25 @@ seed("C18-6", "C10", "DETERMINISM")
 seed("C18-6", "C18", "NO-GLOBAL-WRITE")
 seed("C19-2", "C10", "CARRY")
 refactor("RX-1", ["C18", "C10"])
+
+# round 4 (ordinary maintenance refactorings R9/R10 and deep restructurings R11/R12)
+refactor("R9-1", ["C10", "C18"])
+refactor("R9-2", ["C08", "C09"])
+refactor("R9-3", ["C08", "C09", "C16"])
+refactor("R9-4", ["C08", "C10", "C19"])
+refactor("R9-5", ["C08", "C16", "C17", "C04"])
+refactor("R10-1", ["C16", "C17"])
+refactor("R10-2", ["C16", "C17", "C10"])
+refactor("R10-3", ["C04", "C16", "C17", "C19"])
+refactor("R10-4", ["C18", "C10", "C05", "C06"])
+refactor("R10-5", ["C08", "C09", "C10"])
+refactor("R11-1", ["C04", "C19", "C08", "C17"])
+refactor("R11-2", ["C15", "C17", "C10"])
+refactor("R11-3", ["C10", "C08", "C19"])
+refactor("R11-4", ["C16", "C17", "C19"])
+refactor("R11-5", ["C05", "C06", "C10", "C16"])
+refactor("R12-1", ["C08", "C09"])
+refactor("R12-2", ["C08", "C09"])
+refactor("R12-3", ["C16", "C17", "C10"])
+refactor("R12-4", ["C08", "C09", "C16"])
+refactor("R12-5", ["C08", "C10", "C17"])
